@@ -64,7 +64,9 @@ def schedule(vec, stream):
                 'seg+1': Fraction(seg) + Fraction(1, ts), '3seg': Fraction(seg) * 3}[v['interval']]
     interval = max(1, int(interval * ts))
     return {'types': v['type'].split(','), 'start': start, 'interval': interval, 'count': int(v['count']),
-            'timescale': ts, 'version': int(v['version']), 'inband': v['inband'] == '1', 'duration': int(v['duration'])}
+            'timescale': ts, 'version': int(v['version']), 'inband': v['inband'] == '1', 'duration': int(v['duration']),
+            # 'ping' / 'scte35': only that type travels in the media, the other one is listed in the manifest
+            'inband_of': {t: v['inband'] in ('1', t) for t in v['type'].split(',')}}
 
 
 def query(sch):
@@ -75,7 +77,7 @@ def query(sch):
         q[f'{t}__count'] = str(sch['count'])
         q[f'{t}__timescale'] = str(sch['timescale'])
         q[f'{t}__version'] = str(sch['version'])
-        q[f'{t}__inband'] = '1' if sch['inband'] else '0'
+        q[f'{t}__inband'] = '1' if sch['inband_of'][t] else '0'
         q[f'{t}__duration'] = str(sch['duration'])
     return q
 
@@ -153,7 +155,8 @@ def execute(item):
         q['base'] = base
     url = crawl.manifest_url(mode, stream, template, q)
     rec = {'stream': stream, 'mode': mode, 'vec': vec, 'phase': phase, 'template': template, 'base': base}
-    tag = f"{'+'.join(sch['types'])}|v{sch['version']}|{'inband' if sch['inband'] else 'outband'}"
+    mixed = len(set(sch['inband_of'].values())) > 1
+    tag = f"{'+'.join(sch['types'])}|v{sch['version']}|{'mixed' if mixed else ('inband' if sch['inband'] else 'outband')}"
 
     def bad(clause, text):
         acc.violation(sig(clause, tag), f'{url} ({mode}, schedule {sch}): {text}', rec)
@@ -171,8 +174,10 @@ def execute(item):
     acc.count('traces')
     st = crawl.Stored.fixture(stream)
     # out-of-band: the manifest lists the schedule
-    if not sch['inband']:
+    if not all(sch['inband_of'].values()):
         for t in sch['types']:
+            if sch['inband_of'][t]:
+                continue
             streams = [e for p in doc.periods for e in p.el.findall(mpd.Q + 'EventStream')
                        if e.get('schemeIdUri') == SCHEMES[t]]
             if sch['count'] == 0:
@@ -242,7 +247,7 @@ def execute(item):
         run_hi = hi
         for t in sch['types']:
             boxes = [e for e in frag.emsgs if e['scheme_id_uri'] == SCHEMES[t]]
-            want = expected_in(sch, lo, hi) if sch['inband'] else []
+            want = expected_in(sch, lo, hi) if sch['inband_of'][t] else []
             if want:
                 acc.nontriv((stream, template, base, mode, phase, tuple(sorted(vec.items())), seg['n'], t))
             got = [e['id'] for e in boxes]
@@ -277,7 +282,7 @@ def execute(item):
                     check_scte(acc, bad, sch, k, e['message_data'], 'emsg')
                 elif e['message_data'] not in (b'ping', b'pong') or (e['message_data'] == b'ping') != (k % 2 == 0):
                     bad('ping-payload', f'event {k}: payload {e["message_data"]!r}')
-    if sch['inband'] and run_lo is not None:
+    if any(sch['inband_of'].values()) and run_lo is not None:
         for t in sch['types']:
             ids = seen[t]
             if len(ids) != len(set(ids)):
@@ -503,6 +508,12 @@ def plan(tier):
                         items.append(('run', ('bbb', 'vod', vv, 0, 'manifest_n', None)))
                         items.append(('run', ('bbb', 'vod', vv, 0, 'manifest_n', '0')))
                         items.append(('run', ('bbb', 'vod', vv, 0, 'hand_made', '0')))
+    # both event types at once, one in the media and one in the manifest (and a schedule that lists something)
+    for only in ('ping', 'scte35'):
+        for count in ('3', '7'):
+            for mode, phase in (('vod', 0), ('live', 17.3)):
+                for tmpl in ('hand_made', 'manifest_n'):
+                    items.append(('run', ('bbb', mode, {'type': 'ping,scte35', 'inband': only, 'count': count}, phase, tmpl, None)))
     for v in vecs:
         if len(v) <= 1 and v.get('inband', '1') == '1':
             for tmpl, base in (('manifest_n', None), ('manifest_n', '0'), ('hand_made', '0')):
